@@ -44,4 +44,9 @@ def main():
 
 
 if __name__ == '__main__':
-    sys.exit(main())
+    code = main()
+    sys.stdout.flush()
+    sys.stderr.flush()
+    # skip interpreter finalisation: worker threads of the transport stub
+    # (C13) are daemon threads and must not be waited for in __del__
+    os._exit(code)
